@@ -21,6 +21,8 @@ os.environ.setdefault("OMP_NUM_THREADS", "1")
 
 import random  # noqa: E402
 
+import math  # noqa: E402
+
 import numpy as np  # noqa: E402
 
 from harness import core  # noqa: E402
@@ -226,10 +228,65 @@ def _alias_fixed():
     return out
 
 
+def _locate_fixed():
+    """`locate_points` against `Model/Locate.lean`: exact rows, rows shifted by less / more than the tolerance,
+    exact ties between two designs, empty query, default / explicit / zero / negative tolerance"""
+    X = [[0.0, 0.0], [1.0, 0.0], [1.0, 1.0], [0.25, 0.75], [0.5, 0.5]]
+    out = []
+    out.append({"kind": "locate", "shape": "exact", "X": X, "xs": [X[2], X[0], X[4], X[2]], "atol": None})
+    out.append({"kind": "locate", "shape": "exact-atol0", "X": X, "xs": [X[3], X[1]], "atol": 0.0})
+    out.append({"kind": "locate", "shape": "near", "X": X, "xs": [[1.0, 0.125], [0.0, -0.0625]], "atol": 0.25})
+    out.append({"kind": "locate", "shape": "far-one-row", "X": X, "xs": [X[1], [1.0, 0.125], X[0]], "atol": 0.0625})
+    out.append({"kind": "locate", "shape": "far-default", "X": X, "xs": [[1.0, 2.0 ** -10]], "atol": None})
+    out.append({"kind": "locate", "shape": "tie", "X": X, "xs": [[0.5, 0.0], [1.0, 0.5]], "atol": 1.0})
+    out.append({"kind": "locate", "shape": "negative-atol", "X": X, "xs": [X[0]], "atol": -1.0})
+    out.append({"kind": "locate", "shape": "empty-query", "X": X, "xs": [], "atol": None})
+    out.append({"kind": "locate", "shape": "last-design", "X": X, "xs": [X[4]], "atol": None})
+    out.append({"kind": "locate", "shape": "one-dim", "X": [[0.0], [0.5], [-0.25]], "xs": [[-0.25], [0.5], [0.0]], "atol": None})
+    return out
+
+
+def _locate_random(rng):
+    d = rng.randint(1, 3)
+    K = rng.randint(1, 10)
+    pts = set()
+    while len(pts) < K:
+        pts.add(tuple(rng.randint(-8, 8) / 8.0 for _ in range(d)))
+    X = [list(p) for p in pts]
+    rng.shuffle(X)
+    atol = rng.choice([None, None, 0.0, 2.0 ** -6, 0.125, 0.5, 2.0, -0.5])
+    a = 1e-6 if atol is None else atol
+    xs = []
+    for _ in range(rng.randint(1, 6)):
+        base = list(rng.choice(X))
+        r = rng.random()
+        if r < 0.45:
+            xs.append(base)
+        elif r < 0.7:      # clearly inside the tolerance ball (if it has a dyadic interior) — else exact
+            j = rng.randrange(d)
+            step = 0.0
+            if a >= 2.0 ** -6:
+                step = 2.0 ** math.floor(math.log2(a)) / 2.0
+            base[j] += rng.choice([-1, 1]) * step
+            xs.append(base)
+        elif r < 0.9:      # clearly outside
+            j = rng.randrange(d)
+            base[j] += rng.choice([-1, 1]) * max(2.0 ** -9, 4.0 * abs(a))
+            xs.append(base)
+        else:              # midpoint of two designs (tie if they are mutual nearest neighbours)
+            other = rng.choice(X)
+            xs.append([(u + v) / 2.0 for u, v in zip(base, other)])
+    return {"kind": "locate", "shape": "random", "X": X, "xs": xs, "atol": atol}
+
+
 def gen_cov_extra(ctx, rng):
     if ctx.worker == 0:
         yield from _twospace_fixed()
         yield from _alias_fixed()
+        yield from _locate_fixed()
+    lrng = random.Random(f"locate-{ctx.seed}-{ctx.worker}")
+    for _ in range(ctx.n(120, 6000)):
+        yield _locate_random(lrng)
     for _ in range(ctx.n(0, 3000)):
         model = rng.choice(["independent", "correlated", "modellist", "empirical"])
         ops = []
@@ -589,8 +646,72 @@ def _run_alias(ctx, case):
     ctx.case_done(case, any(o[0] == "add" for o in case["ops"]), canon=case)
 
 
+def _run_locate(ctx, case):
+    """real `FixedPointsDesignSpace.locate_points` vs `Locate.locate` (exact, on the squares).  All coordinates are
+    dyadic, so sklearn's |x|² − 2xy + |y|² expansion is exact and only the final `sqrt(d) > atol` comparison could
+    round: the Lean verdict is taken at atol·(1 ∓ 2⁻³⁰) and compared only when both agree (robust)."""
+    from vopy.design_space import FixedPointsDesignSpace
+
+    ctx.count("cov_locate_" + case["shape"])
+    X = np.array(case["X"], dtype=float)
+    d = X.shape[1]
+    xs = np.array(case["xs"], dtype=float).reshape(-1, d)
+    atol = case["atol"]
+    a = 1e-6 if atol is None else float(atol)
+    ds = FixedPointsDesignSpace(X.copy(), 2, confidence_type="hyperrectangle")
+    try:
+        got = ds.locate_points(xs.copy()) if atol is None else ds.locate_points(xs.copy(), atol=atol)
+        got = [int(i) for i in got]
+        raised = None
+    except ValueError:
+        got, raised = None, "ValueError"
+    except Exception as e:
+        got, raised = None, type(e).__name__
+        _viol(ctx, "locate-crash:" + core.exc_key(e), f"locate_points raised {type(e).__name__}: {e}", case)
+    lo, hi = a * (1 - 2.0 ** -30), a * (1 + 2.0 ** -30)
+    if a < 0:
+        lo, hi = hi, lo
+    v_lo = ctx.ask("locate", core.qmat(xs.tolist()), core.qmat(X.tolist()), core.q(lo))
+    v_hi = ctx.ask("locate", core.qmat(xs.tolist()), core.qmat(X.tolist()), core.q(hi))
+    v = ctx.ask("locate", core.qmat(xs.tolist()), core.qmat(X.tolist()), core.q(a))
+    robust = (v_lo == "err") == (v_hi == "err") == (v == "err") and "bad" not in (v + v_lo + v_hi)
+    if "bad" in v:
+        raise RuntimeError("driver rejected a locate request: " + v)
+    if not robust:
+        ctx.count("locate_borderline")
+    elif raised is not None and raised != "ValueError":
+        pass
+    elif v == "err" and got is not None:
+        _viol(ctx, "locate-accepts-far-point", "locate_points returned indices although some query row is farther than "
+              "atol from every design (or there was nothing to locate): a sample requested at that point would be "
+              "booked on a design it was not taken at", case, detail={"returned": got, "atol": a})
+    elif v != "err" and got is None:
+        _viol(ctx, "locate-rejects-design-point", "locate_points raised ValueError although every query row is within "
+              "atol of a design", case, detail={"model": v, "atol": a})
+    elif v != "err":
+        want = [] if v == "_" else [int(t) for t in v.split(",")]
+        ok = len(got) == len(xs)
+        if ok:
+            for k, i in enumerate(got):
+                band = ctx.ask("locband", core.qvec(xs[k].tolist()), core.qmat(X.tolist()), "0")
+                if str(i) not in band.split(","):
+                    ok = False
+        if not ok:
+            _viol(ctx, "locate-points-wrong-design", "locate_points returned an index that is not a nearest design of "
+                  "the queried point (exact squared distances)", case, detail={"returned": got, "model": want})
+        elif got != want:
+            _viol(ctx, "locate-tie-rule", "locate_points resolved an exact tie differently from np.argmin's first-minimum "
+                  "rule of the model", case, kind="F", detail={"returned": got, "model": want})
+        ctx.count("locate_ok")
+    else:
+        ctx.count("locate_err")
+    ctx.case_done(case, len(xs) > 0, canon=case)
+
+
 def run_cov(ctx, case):
-    if case["kind"] == "acq":
+    if case["kind"] == "locate":
+        _run_locate(ctx, case)
+    elif case["kind"] == "acq":
         _run_acq(ctx, case)
     elif case["kind"] == "covrun":
         _run_covrun(ctx, case)
